@@ -58,6 +58,13 @@ SPECS = {
     "backtick-two-stateful": "center(`my col`) + scale(`my col`)",
     "backtick-plain+stateful": "I(`my col`**2) + center(`my col`)",
     "backtick-lookup+stateful": "`my col` + center(`a-b`) + scale(`a-b`):A",
+    # interactions of three / four categorical factors whose lower-order terms are not all in the formula
+    "cat3-only": "A:B:G",
+    "cat3-one-main": "A + A:B:G",
+    "cat3-all-mains": "A + B + G + A:B:G",
+    "cat3-numeric": "a + A:B:G:a",
+    "cat4": "A:B:G:H",
+    "cat3-two-way": "A:B + B:G + A:B:G",
     # every shipped transform over writable numpy vectors (float64 / float32 / int64, one with NaNs) that the caller
     # holds in the context
     "ctxvec-lag": "lag(vf64) + lag(vi64) + lag(vf32, -1) + b",
@@ -285,6 +292,13 @@ def run_bounded(ctx):
     pair_data = DATA + ("d3",) if ctx.thorough else DATA_KINDS
     pairs = list(pair_histories(core, pair_data, ("d0", "d2") if ctx.thorough else ("d0",)))
     rand = list(random_histories(rng, 3000 if ctx.thorough else 250))
+    # every many-factor interaction formula is always present (fresh builds on two frames + a spec re-use), so that the
+    # hash-seed comparison below always sees them
+    for name in SPECS:
+        if name.startswith("cat"):
+            rand.append([["mm", SPECS[name], "d0", "pandas"], ["Fmm", SPECS[name], "d1", "numpy"], ["reuse", 0, "d2"]])
+            if ctx.thorough:
+                rand.append([["uspec", SPECS[name], "d3", "sparse"], ["mm", SPECS[name], "d2", "pandas"], ["joint", [0, 1], "d0"]])
     every = pairs + rand
     chains = {}
     for h in every:
@@ -318,7 +332,8 @@ def run_bounded(ctx):
         "result>)) and joint builds of two earlier specs in one ModelSpecs; context holds mutable lists / dicts / arrays that formulas "
         "pass to transforms (knots=, contrasts=, levels=, center=) and writable float64 / float32 / int64 numpy vectors (one with NaNs) that "
         "every shipped transform (lag, center, scale, standardize, poly, bs, cr, cc, hashed, C, I, np.log) is applied to; frames have columns whose names are not identifiers ('my col', "
-        "'a-b'; one frame also has 'my_col') used back-ticked in several stateful factors; some calls get a context that shadows the built-in `center`/`scale` with plain "
+        "'a-b'; one frame also has 'my_col') used back-ticked in several stateful factors, and four categorical columns with formulas that interact three or four of them "
+        "without all lower-order terms (A:B:G, A + A:B:G, A:B:G:H, ...; always present); some calls get a context that shadows the built-in `center`/`scale` with plain "
         "functions while other calls of the same history do not; histories revolve around one or two formulas; non-trivial = more than one call",
         exhaustive=False,
         bound="history length<=5",
